@@ -84,13 +84,14 @@ abbrev permute (d : Decl) (sel gsel : List Nat) : Decl := restrict d sel gsel
 /-- entity discipline of a formula expression living on entity `ent`: a sum over members
     (`op1 1`) and the role operations (`op1 10..79`: role-filtered sum, value of the unique-role
     member, number of role holders, any, max, min, all) yield a group vector from a person vector, a projection
-    (`op1 2`) a person vector from a group vector; every other operation stays on its entity.  (Real formulas that break
+    (`op1 2`, and `op1 80..89` with a role filter) a person vector from a group vector; every other operation stays on its entity.  (Real formulas that break
     this discipline raise a numpy shape error or broadcast.) -/
 def WT : Nat → DExpr → Bool
   | _, .const _ => true
   | _, .var _ _ _ => true
   | ent, .op1 o a =>
-    if o = 1 ∨ isRoleOp o = true then (ent != 0) && WT 0 a else if o = 2 then (ent == 0) && WT 1 a else WT ent a
+    if o = 1 ∨ isRoleOp o = true then (ent != 0) && WT 0 a
+    else if o = 2 ∨ isProjOp o = true then (ent == 0) && WT 1 a else WT ent a
   | ent, .op2 _ a b => WT ent a && WT ent b
   | ent, .fail _ a => WT ent a
 
